@@ -15,7 +15,7 @@ Every owner operation is the sequence of events that the C++ source performs, in
 _optional/optional.hpp, _expected/expected.hpp, _functional/inplace_function.hpp,
 _set/static_set.hpp, _flat_set/flat_set.hpp, _stack/stack.hpp, _algorithm/rotate.hpp,
 _algorithm/move.hpp, _algorithm/remove_if.hpp, _utility/swap.hpp, _memory/uninitialized_*.hpp,
-_memory/ranges_destroy.hpp), *as they are after the `fix:` commits of branch fix-c03*.
+_memory/ranges_destroy.hpp), *as they are after the `fix:` commits of branch fix-c03 and of the C07 follow-up (e7501ef, 48efb47)*.
 
 Element kinds: `cm` copyable and movable, `mo` move-only, `co` copy-only (no move members are
 declared, so every "move" of the library binds to the copy operation and leaves its source intact).
@@ -325,6 +325,14 @@ def svPushList (k : Kind) (cap base : Nat) : List Nat → Mem → Nat → Except
     | .error e => .error e
     | .ok (m1, n1) => svPushList k cap base xs m1 n1
 
+/-- `emplace_back(x)` (construction from a value) for every value of a list: how a caller fills a local container -/
+def svPushValues (k : Kind) (cap base : Nat) : List Nat → Mem → Nat → Except LErr (Mem × Nat)
+  | [], m, n => .ok (m, n)
+  | x :: xs, m, n =>
+    match svEmplaceBack k cap base m n (.value x) with
+    | .error e => .error e
+    | .ok (m1, n1) => svPushValues k cap base xs m1 n1
+
 /-- `insert(position, n, x)`: preconditions, `b = end()`, `n` × `push_back(x)`, `rotate(position, b, end())` -/
 def svInsertN (k : Kind) (cap base tmp : Nat) (m : Mem) (n pos cnt x : Nat) : Except LErr (Mem × Nat) :=
   if pos > n then .error (.pre "static_vector::insert: position in range")
@@ -445,6 +453,31 @@ def svAssignList (k : Kind) (cap base tmp : Nat) (m : Mem) (n : Nat) (xs : List 
     match svClear base m n with
     | .error e => .error e
     | .ok (m1, n1) => svInsertList k cap base tmp m1 n1 0 xs
+
+/-- `t.~static_vector(); new (&t) static_vector(sz)`: the destructor (`unsafe_destroy_all`), then the sized
+    constructor `TETL_PRECONDITION(n <= capacity()); emplace_n(n)` on the empty storage -/
+def svCtorN (k : Kind) (cap base loc : Nat) (m : Mem) (n sz : Nat) : Except LErr (Mem × Nat) :=
+  match svClear base m n with
+  | .error e => .error e
+  | .ok (m1, n1) =>
+    if sz > cap then .error (.pre "static_vector(n): n <= capacity()") else svEmplaceN k cap base loc sz m1 n1
+
+/-- `t.~static_vector(); new (&t) static_vector(cnt, value)`: destructor, then
+    `TETL_PRECONDITION(n <= capacity()); insert(begin(), n, value)` -/
+def svCtorNV (k : Kind) (cap base tmp : Nat) (m : Mem) (n cnt x : Nat) : Except LErr (Mem × Nat) :=
+  match svClear base m n with
+  | .error e => .error e
+  | .ok (m1, n1) =>
+    if cnt > cap then .error (.pre "static_vector(n, value): n <= capacity()") else svInsertN k cap base tmp m1 n1 0 cnt x
+
+/-- `t.~static_vector(); new (&t) static_vector(first, last)` from a caller-owned random-access range: destructor, then
+    `TETL_PRECONDITION(last - first <= capacity()); insert(begin(), first, last)` -/
+def svCtorList (k : Kind) (cap base tmp : Nat) (m : Mem) (n : Nat) (xs : List Nat) : Except LErr (Mem × Nat) :=
+  match svClear base m n with
+  | .error e => .error e
+  | .ok (m1, n1) =>
+    if xs.length > cap then .error (.pre "static_vector(first, last): distance <= capacity()")
+    else svInsertList k cap base tmp m1 n1 0 xs
 
 /-- the copy / move constructor: `insert(begin(), other.begin(), other.end())` resp. `move_insert(...)`
     into an empty vector at `dst` (the trailing `rotate(begin(), begin(), end())` returns at once).
@@ -588,6 +621,20 @@ def varEmplace (k : Kind) (trk : Nat → Bool) (m : Mem) (s ix j : Nat) (h : How
     | .error e => .error e
     | .ok m2 => .ok (m2, j)
 
+/-- `operator=(T&& t)` where overload resolution selects alternative `j` (the converting assignment,
+    as it is after e7501ef): `if (index() == j) (*this)[index_v<j>] = forward<T>(t); else emplace<j>(forward<T>(t));`
+    — the held alternative is assigned through (copy assignment for an lvalue / a copy-only type, move
+    assignment for an rvalue), any other one is destroyed and the selected one constructed.
+    The operand `src` may be the variant's own alternative (`v = v[index_v<j>]`, then `index() == j`). -/
+def varAssignValue (k : Kind) (trk : Nat → Bool) (mv : Bool) (m : Mem) (s ix j : Nat) (src : Src) : Except LErr (Mem × Nat) :=
+  if ix = j then
+    (if trk j then
+      match (if mv then moveA k m s j src else copyA m s j src) with
+      | .error e => .error e
+      | .ok m1 => .ok (m1, j)
+     else .ok (m, j))
+  else varEmplace k trk m s ix j (if mv then .move src else .copy src)
+
 /-- copy / move constructor: `_union(uninitialized_union())`, then `replace(other.index, move(other.value))` -/
 def varConstructFrom (k : Kind) (trk : Nat → Bool) (mv : Bool) (m : Mem) (dst src ixs : Nat) : Except LErr (Mem × Nat) :=
   match vConstruct k trk m dst ixs (if mv then .move (.slot src) else .copy (.slot src)) with
@@ -624,8 +671,11 @@ def varSwap (k : Kind) (trk : Nat → Bool) (m : Mem) (a ixa b ixb tv : Nat) : E
         | .error e => .error e
         | .ok m4 => .ok (m4, if b = a then ixb' else ixa', ixb')
 
-/-- `optional = T` / `optional = T&&`: the operand is converted to a temporary `optional` (slot `tv`),
-    which is move-assigned and destroyed (`operator=(U&&)` is constrained away for `U = T`) -/
+/-- `optional<T> = t` / `optional<T> = move(t)` with `t` of type `T`: `operator=(U&&)` is constrained away for
+    `decay_t<U> = T` (`not is_same_v<T, decay_t<U>>`; its body, which since 48efb47 assigns through when engaged,
+    is reached only for `U ≠ T`), so the operand is converted to a temporary `optional` (slot `tv`) through
+    `optional(U&&)`, the temporary is move-assigned by the defaulted `operator=(optional&&)` (the variant's
+    `assign`: same index → assign through, else destroy + construct) and destroyed -/
 def optAssignValue (k : Kind) (trk : Nat → Bool) (m : Mem) (s ix tv : Nat) (h : How) : Except LErr (Mem × Nat) :=
   match vConstruct k trk m tv 1 h with
   | .error e => .error e
@@ -716,6 +766,50 @@ def fnAssignCallable (k : Kind) (m : Mem) (s c p j : Nat) (h : How) : Except LEr
   match fnFromCallable k m p j h with
   | .error e => .error e
   | .ok (m1, cp) => fnAssignParam k m1 s c p cp
+
+/-- construction / assignment of the function at `s` from a function object of ANOTHER capacity, a local
+    `inplace_function<R(), Small> src(callable)` living in slot `sm` (built first, destroyed last):
+    the converting constructors `inplace_function(inplace_function<R(Args...), Cap, Align> const&)` — private
+    constructor with `process = copy_ptr` — and `(… &&)` — `process = relocate_ptr`, then
+    `other._vtable = &empty_vtable` — perform the events of the same-capacity copy / move constructor.
+    `asg = false`: `t.~F(); new (&t) F(src)` resp. `F(move(src))`;
+    `asg = true`: `t = src` resp. `t = move(src)`: the by-value parameter of `operator=` (slot `p`) is built by the
+    converting constructor, then `operator=` as above.  Finally `~src`. -/
+def fnFromOtherCap (k : Kind) (asg mv : Bool) (m : Mem) (s c p sm j : Nat) (h : How) : Except LErr (Mem × Nat) :=
+  match fnFromCallable k m sm j h with
+  | .error e => .error e
+  | .ok (m1, csm) =>
+    let built : Except LErr (Mem × Nat × Nat) :=      -- memory, new code of the target, code left in `src`
+      if asg then
+        (if mv then
+          match fnMoveConstruct k m1 p sm csm with
+          | .error e => .error e
+          | .ok (m2, cp, csm') =>
+            match fnAssignParam k m2 s c p cp with
+            | .error e => .error e
+            | .ok (m3, c') => .ok (m3, c', csm')
+         else
+          match fnCopyConstruct m1 p sm csm with
+          | .error e => .error e
+          | .ok (m2, cp) =>
+            match fnAssignParam k m2 s c p cp with
+            | .error e => .error e
+            | .ok (m3, c') => .ok (m3, c', csm))
+      else
+        match fnDestroyCur m1 s c with
+        | .error e => .error e
+        | .ok m2 =>
+          if mv then fnMoveConstruct k m2 s sm csm
+          else
+            match fnCopyConstruct m2 s sm csm with
+            | .error e => .error e
+            | .ok (m3, c') => .ok (m3, c', csm)
+    match built with
+    | .error e => .error e
+    | .ok (m4, c', csm') =>
+      match fnDestroyCur m4 sm csm' with
+      | .error e => .error e
+      | .ok m5 => .ok (m5, c')
 
 /-- `f = nullptr` and the destructor -/
 def fnReset (m : Mem) (s c : Nat) : Except LErr (Mem × Nat) :=
